@@ -16,81 +16,112 @@ _BNOTE = ("bounded stand-in: exhaustive only up to the stated sizes (+ seeded sa
           "independent definitions; deductive part trusts pyvc + z3/cvc5, CPython builtins as axiomatised in pyvc/builtins_model.py, "
           "mathematical ints; termination not verified")
 
+_DNOTE = ("deductive part: pyvc (own VC generator over the real AST of /repo, re-read every run) + z3 E-matching / MBQI + cvc5; trusted: pyvc, "
+          "the solvers, CPython builtins as axiomatised in pyvc/builtins_model.py and the named proof rules of DESIGN.md section 3.3, "
+          "mathematical ints; termination not verified.  ")
+
 CHECKS = {
-    "C01": _c("exploration",
-              "Listing exactness of the pruned backtracking is decided by the bounded stand-in (every pattern/permutation pair up to |patt|<=5,|perm|<=7, "
-              "seeded longer ones, colourings, reuse histories of one pattern object, floor/ceiling table); wrapper consistency is additionally stated as "
-              "deductive obligations where contracts exist.", _BNOTE,
-              "run-time contracts vs brute-force definition over all pairs up to a size (bounded) + deductive obligations (pyvc/z3)"),
+    "C01": _c("proof",
+              "Every function on the path of the property is under a contract that is discharged for ALL lengths: the recursive pruned backtracking "
+              "Perm.occurrences_in (with and without colourings) against the property statement itself - the listing is, in strictly increasing "
+              "lexicographic order, exactly the strictly increasing index tuples order-isomorphic to the pattern (soundness, completeness, each once) - "
+              "via an inner contract on the nested generator and an induction lemma chain; the left floor / left ceiling table (deque rotation "
+              "algorithm) and the memoised per-pattern table; contains / avoids / avoids_set / `in` / counts (0-3 patterns) as the stated functions of "
+              "that listing; memo-invariant and frame obligations for the reuse histories.  The bounded layer (all pairs |patt|<=5, |perm|<=7, "
+              "colourings, suspended generators) is kept as a cross-check.  Level falls back to exploration on any run where an obligation is not discharged.",
+              _DNOTE + "Partial correctness of the recursion; LISTING-CARDINALITY (OCCN = length of the listing) is definitional; variadic calls are proved for 0-3 patterns.",
+              "contract-based deductive verification of the real code (pyvc + z3/cvc5): postcondition = property statement; bounded run-time contracts as cross-check"),
     "C02": _c("exploration",
               "Av(basis) against the filter of S_n for all small classical and mesh bases, ALL operation sequences of length <=2/3 over a 23-op alphabet and seeded "
-              "length-12 histories, representation invariant of the level cache after every operation. The level builder itself is outside the deductive subset.", _BNOTE,
-              "bounded: run-time contracts + representation invariant over exhaustive short operation sequences"),
+              "length-12 histories, representation invariant of the level cache after every operation (bounded).  Deductive: count / enumeration / membership are "
+              "the stated functions of the level container (ASSUMED contract of the level builder), lock-ownership obligation O2.  The level builder itself "
+              "(insertion encoding over dictionaries of permutations) is outside the deductive subset.", _BNOTE,
+              "bounded run-time contracts + representation invariant over exhaustive short operation sequences; deductive wrappers over an assumed level contract"),
     "C03": _c("exploration",
-              "Mesh occurrences against the region definition for all mesh patterns of length <=2 and seeded 3-4, bivincular-type patterns against an independent adjacency "
-              "definition for every requirement set, mixed lists; deductive obligations for the adjacency-to-shading encoding where contracts exist.", _BNOTE,
-              "bounded: run-time contracts vs region/adjacency definitions + deductive obligations (pyvc/z3)"),
+              "Deductive (all sizes): MeshPatt._occurrences_in_perm / occurrences_in(Perm) against the definition - exactly the classical occurrences for which "
+              "no other point falls in a shaded cell, cell = (number of occurrence points to the left, number below), in lexicographic order, each once; "
+              "the adjacency-to-shading encoding of bivincular-type patterns; Perm._contains on a mesh pattern.  Bounded: all mesh patterns of length <=2 x perms <=5/6, "
+              "seeded 3-4, every adjacency requirement set, mixed lists (the bivincular override and the mixed-list entry points are decided by the bounded layer).", _BNOTE,
+              "deductive contracts (pyvc/z3) for the mesh occurrence listing and the adjacency encoding + bounded run-time contracts vs region/adjacency definitions"),
     "C04": _c("exploration",
               "Deductive (unbounded, from the real AST): the six Perm symmetries and the four MeshPatt symmetries against the geometric maps incl. bijectivity "
               "(ghost inverse witnesses), and the dihedral relations r^a r^b = r^(a+b) for all integers, s^2 = e, s r s = r^-1, commutation with get_perm as lemmas over "
               "the contracts. Bounded: equivariance of the real containment search, orbit helpers, lex_min, CLI.", _BNOTE,
               "deductive contracts + lemmas (pyvc/z3) for the maps and group laws; bounded run-time contracts for equivariance and set helpers"),
     "C05": _c("exploration",
-              "Basis/MeshBasis construction over all small multisets in every order: subset, antichain, cover, same class (perms <=6), fixed point, order/repetition "
-              "invariance, from_string 0/1-based, Av identity.", _BNOTE,
-              "bounded: run-time contracts over all multisets of <=3 patterns in every order"),
+              "Deductive: the greedy pruning (Basis._pruner, MeshBasis._pruner) over an abstract containment preorder yields a sub-list that is an antichain and covers every "
+              "candidate; lemma: the (length, lexicographic) sort order is a linear extension of classical containment.  Bounded: Basis/MeshBasis construction over all small "
+              "multisets in every order: subset, antichain, cover, same class (perms <=6), fixed point, order/repetition invariance, from_string 0/1-based, Av identity.", _BNOTE,
+              "deductive contracts for the pruning algorithm + bounded run-time contracts over all multisets of <=3 patterns in every order"),
     "C06": _c("exploration",
-              "sub_mesh_pattern against the geometric region definition and as the strongest implied pattern; soundness of every reported mesh-in-mesh occurrence "
-              "against all occurrences in all permutations up to length 5/6; region tests.", _BNOTE,
-              "bounded: run-time contracts vs region definition and containment sets"),
+              "Deductive (all sizes): is_shaded, is_pointfree and the whole region bookkeeping of sub_mesh_pattern (grid lines, preconditions of the region tests, "
+              "'cell shaded iff the rectangle of original cells is fully shaded and point free').  Bounded: sub-pattern vs geometric definition and as the strongest "
+              "implied pattern; soundness of every reported mesh-in-mesh occurrence against all occurrences in all permutations up to length 5/6.", _BNOTE,
+              "deductive contracts (pyvc/z3) for the region bookkeeping + bounded run-time contracts vs region definition and containment sets"),
     "C07": _c("other",
-              "Interleavings are NOT enumerated or proved. What is checked: sampled real-thread schedules (2-4 threads, switch interval 1e-6) on shared classes with every "
-              "answer compared to the single-threaded oracle and the representation invariant after each round; structural lock-ownership obligations come from the "
-              "deductive layer where implemented.", _BNOTE + "; GIL atomicity of list/dict operations assumed",
-              "sampled real-thread schedules vs sequential oracle (bounded, sampled) + structural lock-ownership obligations"),
-    "C08": _c("exploration",
-              "All pairs/triples of a pool of perms, mesh/bivincular/vincular/covincular patterns and bases: equality vs abstract value, hash coherence and stability across "
-              "allocation churn, total order laws across subclasses, sorted() independence of input order.", _BNOTE,
-              "bounded: run-time contracts over all pairs/triples of a pool (+ deductive dunder obligations where implemented)"),
+              "Interleavings are NOT enumerated or proved. Structural lock-ownership obligations O1-O4 (every write to the shared cache or anything reachable from it "
+              "happens under the one class lock on every call path; no re-entry; no publish-before-complete) are discharged on all paths; sampled real-thread schedules "
+              "(2-4 threads, switch interval 1e-6) are compared with the single-threaded oracle and the representation invariant after each round.",
+              _BNOTE + "; GIL atomicity of list/dict operations assumed",
+              "structural lock-ownership obligations (all paths) + sampled real-thread schedules vs sequential oracle"),
+    "C08": _c("proof",
+              "179 obligations over the bodies of __eq__/__hash__/__lt__/__le__/__gt__/__ge__ of Perm, MeshPatt, BivincularPatt (and subclasses), Basis, MeshBasis "
+              "under a model of Python's rich-comparison protocol: hash stability, equality is value equality, eq implies hash-eq, order defined / trichotomous / "
+              "consistent with eq for all 16 class pairs, transitive for all 64 triples.  Bounded cross-check over pools of objects.",
+              "trusted: the comparison-protocol model, value-hash vs identity-hash distinction, order axioms of tuples / sorted(shading) (DESIGN section 4)",
+              "contract-based deductive verification of the comparison methods (pyvc.dunder + z3)"),
     "C09": _c("exploration",
-              "Generators, rank/unrank bijection over all ranks below sum n! (n<=7/9), standardisation on all small sequences of many element types with warm memo, "
-              "all notations incl. boundary lengths around 10, validated constructor, mesh rank/unrank.", _BNOTE,
-              "bounded: run-time contracts over full rank ranges and small sequence spaces"),
+              "Deductive: standardisation (unique order-isomorphic permutation, ties left to right) from the stable-sort axiom, validated constructor (accepts exactly the "
+              "bijections), identity / monotone / one_based constructors, purity of the memoised helper.  Bounded: generators, rank/unrank over all ranks below sum n! "
+              "(n<=7/9), all notations incl. boundary lengths around 10, mesh rank/unrank.", _BNOTE,
+              "deductive contracts for standardisation and constructors + bounded run-time contracts over full rank ranges"),
     "C10": _c("exploration",
-              "Deductive (unbounded lengths): direct/skew sum (arity 1-3), compose (2-3), __call__, insert (all optional-argument shapes), remove/remove_element "
-              "(with an induction lemma on the prefix count), the four cyclic shifts (explicit quotient encoding of %), each with bijectivity. Bounded: all operations, "
-              "laws, decompositions, intervals, simplicity, children/coveredby duality on all perms up to 7/8.", _BNOTE,
+              "Deductive (unbounded lengths): direct/skew sum (arity 1-3), compose (2-3), __call__, insert (all optional-argument shapes), remove/remove_element, the four "
+              "cyclic shifts, apply, + - *, each with bijectivity; sum/skew decomposability.  Bounded: all operations, laws, decompositions, intervals, simplicity, "
+              "children/coveredby duality on all perms up to 7/8.", _BNOTE,
               "deductive contracts (pyvc/z3) for the pointwise operations; bounded run-time contracts for decompositions and laws"),
     "C11": _c("exploration",
-              "Deductive (unbounded): 14 positional listings as definitional filters (filter-congruence rule / yield-loop invariants) and 22 count/list wrappers "
-              "(count = len(listing)). Bounded: every statistic and table entry BY NAME against independent definitions on all perms <=7/8, distributions, preservation tools.", _BNOTE,
+              "Deductive (unbounded): 14 positional listings as definitional filters, left-to-right and right-to-left records, inversions / non-inversions as "
+              "lexicographically sorted complete pair listings, strong fixed points, 30 count/list wrappers (count = len(listing)), monotonicity tests, is_involution. "
+              "Bounded: every statistic and table entry BY NAME against independent definitions on all perms <=7/8, distributions, preservation tools.", _BNOTE,
               "deductive listing contracts (pyvc/z3) + bounded run-time contracts vs independent definitions"),
     "C12": _c("exploration",
-              "Sorting operators vs explicit device simulations, sortable predicates vs pattern characterisations, pass counts, Simion-Schmidt bijection on full domains "
-              "up to n=8/9, family predicates vs independent definitions.", _BNOTE, "bounded: run-time contracts vs device simulations"),
+              "Deductive: the sortable predicates are 'the operator's output (k passes) is the identity' (operators under ASSUMED contracts), _is_sorted.  Bounded: sorting "
+              "operators vs explicit device simulations, pattern characterisations, pass counts, Simion-Schmidt bijection on full domains up to n=8/9.", _BNOTE,
+              "bounded run-time contracts vs device simulations + deductive wrappers"),
     "C13": _c("exploration",
-              "Verdicts vs structure-theorem specs, container independence incl. one-shot iterators, memo cold/warm, symmetries, consistency with real enumeration.", _BNOTE,
-              "bounded: run-time contracts vs class-membership definitions and enumeration"),
+              "Deductive: is_finite (arity 0-3), four run-shape predicates equal their class definitions, memo invariants, decomposability.  Bounded: verdicts vs "
+              "structure-theorem specs, container independence incl. one-shot iterators, memo cold/warm, symmetries, consistency with real enumeration.", _BNOTE,
+              "deductive contracts for the finiteness / shape predicates + bounded run-time contracts vs class-membership definitions"),
     "C14": _c("exploration",
-              "Pin word decoding vs an independent geometric decoder for all pin words <=5/6, tables, factorisation, translations, containment vs real pattern containment.", _BNOTE,
-              "bounded: run-time contracts vs geometric decoder and real containment"),
+              "Pin word decoding vs an independent geometric decoder for all pin words <=5/6, tables, factorisation, translations, containment vs real pattern containment "
+              "(bounded).  Deductive: purity of the memoised tables only (strings, exact rationals and recursion on strings are outside the subset).", _BNOTE,
+              "bounded run-time contracts vs geometric decoder and real containment"),
     "C15": _c("exploration",
-              "Acceptance of every word of M up to length 8/10 vs containment of a basis element in the decoded permutation, exact finiteness decision, exact DB-vs-fresh equivalence.", _BNOTE,
-              "bounded word-level comparison + exact automata equivalence (product construction)"),
+              "Deductive: the literal transition table of the automaton for M is decided exactly against the definition (product construction), purity.  Bounded: acceptance "
+              "of every word of M up to length 8/10 vs containment of a basis element in the decoded permutation, exact finiteness decision, exact DB-vs-fresh equivalence, names.", _BNOTE,
+              "exact automaton-language obligation + bounded word-level comparison and exact automata equivalence"),
     "C16": _c("exploration",
-              "Verdict consistency across the four entry points, order/symmetry invariance, Schmerl-Trotter consequence on real enumeration, family oracles.", _BNOTE,
-              "bounded: run-time contracts vs family oracles and enumeration of simples"),
+              "Deductive: has_finite_special_simples, has_finite_simples (every check_all/use_db), Av.has_finitely_many_simples are the stated combinations of the four "
+              "family verdicts and the finite/polynomial short-circuits (family tests under ASSUMED ghost verdicts).  Bounded: family oracles, order/symmetry invariance, "
+              "Schmerl-Trotter consequence on real enumeration.", _BNOTE,
+              "deductive wrapper contracts over ghost family verdicts + bounded run-time contracts vs family oracles"),
     "C17": _c("exploration",
-              "BiSC soundness/completeness/irredundancy on ALL subsets of S0..S3 and seeded sets up to length 5, own containment vs definition, representations, clean-up, auto_bisc.", _BNOTE,
-              "bounded: run-time contracts over all small input sets"),
+              "Deductive: maximal_mesh_pattern_of_occurrence = complement of the cells occupied by non-occurrence points.  Bounded: BiSC soundness/completeness/irredundancy on "
+              "ALL subsets of S0..S3 and seeded sets up to length 5, own containment vs definition, representations, clean-up, auto_bisc.", _BNOTE,
+              "deductive contract for the occupied-cell computation + bounded run-time contracts over all small input sets"),
     "C18": _c("exploration",
-              "Every shading-lemma licence vs equality of container sets (perms <=6/7), add_point vs 'occurrence with a point in the cell', region tests, ascii round trip.", _BNOTE,
-              "bounded: run-time contracts vs container sets"),
+              "Deductive (all sizes): point insertion (_add_point_new_perm through the iterator-split rule, cell splitting, add_point incl. the four directions), the six "
+              "side conditions of the north-east shading lemma, can_shade (reported values name a corner point of the original cell), region tests.  Bounded: every "
+              "shading-lemma licence vs equality of container sets (perms <=6/7), ascii round trip.", _BNOTE,
+              "deductive contracts (pyvc/z3) for point insertion and the side conditions + bounded run-time contracts vs container sets"),
     "C19": _c("exploration",
-              "Every strategy vs its spec predicate, invariance under order/repetition/symmetries, fast vs slow search, shape helpers.", _BNOTE,
-              "bounded: run-time contracts vs spec predicates"),
+              "Deductive: shape helpers (fstrip, bstrip, zero_plus_perm, one_based), decomposability.  Bounded: every strategy vs its spec predicate, invariance under "
+              "order/repetition/symmetries, fast vs slow search.", _BNOTE,
+              "bounded run-time contracts vs spec predicates + deductive helper contracts"),
     "C20": _c("exploration",
-              "All write/read sequences of length <=3/4 in temp directories, malformed files, automaton DB sequences with exact language equivalence, shipped data partition check.", _BNOTE,
-              "bounded: exhaustive short operation sequences over a file model + exact automata equivalence"),
+              "No deductive part (files are outside the subset).  All write/read sequences of length <=3/4 in temp directories, malformed files, automaton DB sequences with "
+              "exact language equivalence, shipped data partition check: run-time contracts on the real functions, bounded.", _BNOTE,
+              "bounded run-time contracts: exhaustive short operation sequences on real files + exact automata equivalence"),
 }
 NOT_APPLICABLE = {}
